@@ -56,6 +56,11 @@ def _find_log_index(f):
 
     # Most calls are sequential, this keeps track of the last value asked for so
     # that we need to search much, much less.
+    # Do some range checking (first: the shortcut below must only ever remember
+    # rows 0..127)
+    if f > _log_cache[127] or f <= 0:
+        return 128
+
     if _last_asked is not None:
         (lastn, lastval) = _last_asked
         if f >= lastval:
@@ -66,10 +71,6 @@ def _find_log_index(f):
                 _last_asked = (lastn + 1, f)
                 return lastn + 1
             begin = lastn
-
-    # Do some range checking
-    if f > _log_cache[127] or f <= 0:
-        return 128
 
     # Binary search related algorithm to find the index
     while begin != end:
